@@ -20,6 +20,15 @@ import (
 type c06Text struct {
 	Src   []byte `json:"src"`
 	Route string `json:"route,omitempty"` // how the source reaches the engine; "" = FromBytes
+	// Repeat: the source is Src written Repeat times (0 = once): sizes around 4 KiB, 64 KiB, just over 1 MiB
+	Repeat int `json:"repeat,omitempty"`
+}
+
+func (cs *c06Text) source() []byte {
+	if cs.Repeat <= 1 || len(cs.Src) == 0 {
+		return cs.Src
+	}
+	return bytes.Repeat(cs.Src, cs.Repeat)
 }
 
 // every way a source can reach the engine: the From*/Render* entry points of a set (bytes, string,
@@ -140,10 +149,11 @@ func c06RenderBytes(src []byte, ctx pongo2.Context) (string, error) {
 
 func checkC06Text(c any, r *Rec) error {
 	cs := c.(*c06Text)
-	if hasOpenDelim(cs.Src) {
+	full := cs.source()
+	if hasOpenDelim(full) {
 		// outside the identity domain: only totality (tpl xor err, no panic)
 		set := pongo2.NewSet("c06", &memLoader{files: map[string]string{}})
-		tpl, err := set.FromBytes(cs.Src)
+		tpl, err := set.FromBytes(full)
 		if (tpl == nil) == (err == nil) {
 			return fmt.Errorf("compile of %q returned tpl=%v err=%v", cs.Src, tpl, err)
 		}
@@ -153,28 +163,40 @@ func checkC06Text(c any, r *Rec) error {
 		r.Class("has-delimiter(totality only)")
 		return nil
 	}
-	out, err := c06RenderVia(cs.Route, cs.Src, pongo2.Context{})
+	out, err := c06RenderVia(cs.Route, full, pongo2.Context{})
 	if err != nil {
 		return fmt.Errorf("delimiter-free source %q failed (%s): %v", cs.Src, cs.Route, err)
 	}
-	if out != string(cs.Src) {
+	if out != string(full) {
+		if cs.Repeat > 1 {
+			return fmt.Errorf("delimiter-free source of %d bytes (%q x %d) does not render to itself (route %s): %d bytes came out", len(full), cs.Src, cs.Repeat, cs.Route, len(out))
+		}
 		return fmt.Errorf("delimiter-free source does not render to itself (route %s):\n src=%q\n out=%q", cs.Route, cs.Src, out)
 	}
 	r.Class("identity")
 	if cs.Route != "" {
 		r.Class("route:" + cs.Route)
 	}
+	if cs.Repeat > 1 {
+		r.Class(fmt.Sprintf("size>=%dKiB", len(full)/1024/64*64))
+	}
 	if significantByte(cs.Src) {
-		r.NonTrivial(string(cs.Src))
+		r.NonTrivial(string(cs.Src) + fmt.Sprint(cs.Repeat))
 	}
 	return nil
 }
 
 var _ = register(&propSpec{
 	ID:   "C06.text",
-	Rule: "byte strings built without {{ {% {# (lexer-significant chars, control bytes incl. 0x01, high bytes/invalid UTF-8, CR/LF, BOM, multi-byte), handed to the engine by a drawn route (FromBytes with the caller's buffer scribbled afterwards, FromString, FromFile, FromCache, RenderTemplateString/Bytes/File, as the target of an include, as the target of ssi parsed); must render to themselves byte for byte. Non-trivial: contains a lexer-significant, control or non-ASCII byte; distinct by source bytes.",
+	Rule: "byte strings built without {{ {% {# (now and then repeated up to 4 KiB / 64 KiB / just over 1 MiB; lexer-significant chars, control bytes incl. 0x01, high bytes/invalid UTF-8, CR/LF, BOM, multi-byte), handed to the engine by a drawn route (FromBytes with the caller's buffer scribbled afterwards, FromString, FromFile, FromCache, RenderTemplateString/Bytes/File, as the target of an include, as the target of ssi parsed); must render to themselves byte for byte. Non-trivial: contains a lexer-significant, control or non-ASCII byte; distinct by source bytes.",
 	Gen: func(t *rapid.T) any {
-		return &c06Text{Src: genDelimFreeBytes(t, "src", 40), Route: pick(t, "route", c06Routes)}
+		cs := &c06Text{Src: genDelimFreeBytes(t, "src", 40), Route: pick(t, "route", c06Routes)}
+		if len(cs.Src) > 0 && cs.Src[len(cs.Src)-1] != '{' && drawInt(t, 0, 599, "big") == 0 {
+			// a large source (nothing in the statement limits the size)
+			target := pick(t, "size", []int{4097, 65537, 1<<20 + 1, 1<<20 + 1})
+			cs.Repeat = target/len(cs.Src) + 1
+		}
+		return cs
 	},
 	New:   func() any { return &c06Text{} },
 	Check: checkC06Text,
